@@ -326,12 +326,13 @@ theorem precision_guard_safe (p : Int) :
   simp only [decide_eq_false_iff_not, Int.not_lt]
   omega
 
-/-- The caps are the ones the models of `round` / `percent` / `bytesize…` / `downscale` use, and the
-    guarded variable is the one handed to the formatting call. -/
+/-- The cap is the 1024 the models of `round` / `percent` / `bytesize…` / `downscale` use (a literal
+    in `Funcs/Strings.lean`, `maxPrecision` in the float family), and the guarded variable is the one
+    handed to the formatting call. -/
 theorem precision_eq_model (p : Int) :
-    Gen.C08.maxPrecision = Funcs.Arith.maxPrecision ∧
-    Gen.C08.roundPrecisionGuard p = decide (p > Funcs.Arith.maxPrecision) ∧
-    Gen.C08.percentPrecisionGuard p = decide (p > Funcs.Arith.maxPrecision) ∧
+    Gen.C08.maxPrecision = 1024 ∧
+    Gen.C08.roundPrecisionGuard p = decide (p > 1024) ∧
+    Gen.C08.percentPrecisionGuard p = decide (p > 1024) ∧
     Gen.C08.bytesizePrecisionGuard p = decide (p > 1024) ∧
     Gen.C08.bytesizesiPrecisionGuard p = decide (p > 1024) ∧
     Gen.C08.downscalePrecisionGuard p = decide (p > 1024) ∧
